@@ -41,6 +41,7 @@ type Router struct {
 	serviceLock sync.RWMutex
 
 	snapshotLock sync.Mutex
+	deployLocks  sync.Map
 }
 
 type ServiceDescription struct {
@@ -110,6 +111,8 @@ func (r *Router) ServeHTTP(w http.ResponseWriter, req *http.Request) {
 }
 
 func (r *Router) DeployService(name string, targetURLs []string, options ServiceOptions, targetOptions TargetOptions, deployTimeout time.Duration, drainTimeout time.Duration) error {
+	defer r.lockServiceForDeploy(name)()
+
 	service, err := r.findOrCreateService(name, options, targetOptions)
 	if err != nil {
 		return err
@@ -127,6 +130,8 @@ func (r *Router) DeployService(name string, targetURLs []string, options Service
 }
 
 func (r *Router) SetRolloutTargets(name string, targetURLs []string, deployTimeout time.Duration, drainTimeout time.Duration) error {
+	defer r.lockServiceForDeploy(name)()
+
 	service := r.serviceForName(name)
 	if service == nil {
 		return ErrorServiceNotFound
@@ -273,6 +278,20 @@ func (r *Router) GetCertificate(hello *tls.ClientHelloInfo) (*tls.Certificate, e
 }
 
 // Private
+
+// lockServiceForDeploy serialises deploys (and rollout deploys) of one service.
+// Each of them works on a copy of the service taken at its start, so two that
+// overlap would each replace the same load balancer and the one installed
+// first would be left behind, undrained and with its health checks running.
+func (r *Router) lockServiceForDeploy(name string) func() {
+	lock, _ := r.deployLocks.LoadOrStore(name, &sync.Mutex{})
+	mutex := lock.(*sync.Mutex)
+
+	mutex.Lock()
+	return func() {
+		mutex.Unlock()
+	}
+}
 
 func (r *Router) deployTargetsIntoService(service *Service, targetSlot TargetSlot, targetURLs []string, deployTimeout time.Duration, drainTimeout time.Duration) error {
 	tl, err := NewTargetList(targetURLs, service.targetOptions)
